@@ -257,6 +257,328 @@ Section Correct.
     - simpl in Hs, Hx. apply andb_true_iff in Hx. destruct Hx as [Hx1 Hx2].
       destruct Hr as [Hr1 Hr2]. apply P_un; auto.
   Qed.
+
+  (* ---------------------------------------------------------------- *)
+  (** ** Vector and matrix rules *)
+
+  Notation dv := (fun e : expr => ev (g e)).
+
+  (* --- evaluation of the accumulating folds --- *)
+  Lemma sum_grad_ev des acc : ev (sum_grad des acc) = ev acc + sumR (map ev des).
+  Proof.
+    revert acc. induction des as [|d des IH]; intros acc; simpl; [ring|].
+    rewrite IH, s_add_ev. ring.
+  Qed.
+
+  Lemma lincomb_grad_ev cs des acc :
+    ev (lincomb_grad cs des acc) = ev acc + dotR (map Q2R cs) (map ev des).
+  Proof.
+    revert des acc. induction cs as [|c cs IH]; intros [|d des] acc; simpl; try ring.
+    rewrite IH, s_add_ev, s_mul_ev. simpl. ring.
+  Qed.
+
+  Lemma norm2_grad_ev node es des acc :
+    ev (norm2_grad node es des acc) =
+    ev acc + dotR (map (fun a => ev a / ev node) es) (map ev des).
+  Proof.
+    revert des acc. induction es as [|a es IH]; intros [|d des] acc; simpl; try ring.
+    rewrite IH, s_add_ev, s_mul_ev, s_div_ev. ring.
+  Qed.
+
+  Lemma norm1_grad_ev es des acc :
+    ev (norm1_grad es des acc) =
+    ev acc + dotR (map (fun a => ev a / Rabs (ev a)) es) (map ev des).
+  Proof.
+    revert des acc. induction es as [|a es IH]; intros [|d des] acc; simpl; try ring.
+    rewrite IH, s_add_ev, s_mul_ev, s_div_ev. simpl. ring.
+  Qed.
+
+  Lemma dv_map_Var xs : map dv (map Var xs) = map (ind v) xs.
+  Proof. rewrite map_map. apply map_ext. intros y. apply ev_grad_var. Qed.
+
+  (* --- sums: VectorSum, VectorExpressionSum, MatrixSum --- *)
+  Lemma P_vsum i xs : NoDup xs -> P (VSum i xs).
+  Proof.
+    intros Hnd. unfold P.
+    eapply is_derive_eq.
+    - apply (sumR_derive xs (fun y t => upd rho v t y) (fun y => 1 * ind v y)).
+      apply Forall_forall. intros y _. rewrite Rmult_1_l. apply upd_derive.
+    - rewrite (sum_indicator (fun _ => 1) v xs Hnd). simpl.
+      destruct (mem_name v xs); [apply eq_sym, Q2R_1'|apply eq_sym, Q2R_0'].
+  Qed.
+
+  Lemma P_sum_list es : Forall P es ->
+    is_derive (fun t => sumR (map (fun e => F e t) es)) x0 (ev (sum_grad (map g es) c0)).
+  Proof.
+    intros H. eapply is_derive_eq.
+    - exact (sumR_derive es F dv x0 H).
+    - rewrite sum_grad_ev, ev_c0, map_map. ring.
+  Qed.
+
+  Lemma P_vexprsum es : Forall P es -> P (VExprSum es).
+  Proof. intros H. exact (P_sum_list es H). Qed.
+
+  Lemma P_msum b es : Forall P es -> P (MSum b es).
+  Proof. intros H. exact (P_sum_list es H). Qed.
+
+  (* --- LinearCombination --- *)
+  Lemma lincomb_derive cs es : Forall P es ->
+    is_derive (F (LinComb cs KExpr es)) x0 (dotR (map Q2R cs) (map dv es)).
+  Proof. intros H. exact (dotR_const_derive (map Q2R cs) es F dv x0 H). Qed.
+
+  Lemma dotR_ind_zero cs xs : ~ In v xs -> dotR cs (map (ind v) xs) = 0.
+  Proof.
+    revert cs. induction xs as [|y xs IH]; intros [|c cs] Hn; simpl; try reflexivity.
+    rewrite IH by (intros H; apply Hn; now right).
+    unfold ind. destruct (String.eqb y v) eqn:E; [|ring].
+    apply String.eqb_eq in E. exfalso. apply Hn. left. exact E.
+  Qed.
+
+  Lemma first_coeff_ev cs xs :
+    NoDup xs -> ev (first_coeff v cs (map Var xs)) = dotR (map Q2R cs) (map (ind v) xs).
+  Proof.
+    intros Hnd. revert cs. induction Hnd as [|y xs Hy Hxs IH]; intros [|c cs]; simpl;
+      try apply Q2R_0'.
+    unfold ind at 1. destruct (String.eqb y v) eqn:E.
+    - apply String.eqb_eq in E. subst y. rewrite dotR_ind_zero by exact Hy. simpl. ring.
+    - rewrite IH. ring.
+  Qed.
+
+  Lemma kind_wf_KVar i es :
+    kind_wf (KVar i) es = true -> exists xs, es = map Var xs /\ NoDup xs.
+  Proof.
+    unfold kind_wf. intros H. apply andb_true_iff in H. destruct H as [H1 H2].
+    exists (vec_names es). split; [apply is_var_names, H1|apply NoDupb_NoDup, H2].
+  Qed.
+
+  Lemma P_lincomb cs k es : kind_wf k es = true -> Forall P es -> P (LinComb cs k es).
+  Proof.
+    intros Hk H. unfold P. eapply is_derive_eq; [exact (lincomb_derive cs es H)|].
+    destruct k as [i|]; simpl g.
+    - destruct (kind_wf_KVar i es Hk) as [xs [-> Hnd]].
+      rewrite first_coeff_ev by exact Hnd. now rewrite dv_map_Var.
+    - rewrite lincomb_grad_ev, ev_c0, map_map. ring.
+  Qed.
+
+  (* --- L2Norm / FrobeniusNorm --- *)
+  Notation sumsq es := (sumR (map (fun e => Rsqr (ev e)) es)).
+
+  Lemma sumR_scal_ext {A} (k : R) (h h' : A -> R) (l : list A) :
+    (forall a, h' a = k * h a) -> sumR (map h' l) = k * sumR (map h l).
+  Proof. intros H. rewrite <- sumR_scal. f_equal. apply map_ext, H. Qed.
+
+  Lemma sumsq_derive es : Forall P es ->
+    is_derive (fun t => sumR (map (fun e => Rsqr (F e t)) es)) x0
+              (sumR (map (fun e => 2 * ev e * dv e) es)).
+  Proof.
+    intros H. apply (sumR_derive es (fun e t => Rsqr (F e t))).
+    eapply Forall_impl; [|exact H]. intros e He. unfold Rsqr.
+    eapply is_derive_eq; [apply is_derive_mult_R; exact He|]. rewrite F_x0. ring.
+  Qed.
+
+  Lemma norm2_derive es : Forall P es -> 0 < sumsq es ->
+    is_derive (fun t => sqrt (sumR (map (fun e => Rsqr (F e t)) es))) x0
+              (sumR (map (fun e => ev e / sqrt (sumsq es) * dv e) es)).
+  Proof.
+    intros H Hpos.
+    assert (Hx : sumR (map (fun e => Rsqr (F e x0)) es) = sumsq es).
+    { unfold F. now rewrite upd_same. }
+    eapply is_derive_eq.
+    - apply (is_derive_sqrt (fun t => sumR (map (fun e => Rsqr (F e t)) es)));
+        [apply sumsq_derive, H|]. rewrite Hx. exact Hpos.
+    - cbv beta. rewrite Hx.
+      assert (Hs := sqrt_lt_R0 _ Hpos). set (s := sqrt (sumsq es)) in *.
+      rewrite (sumR_scal_ext 2 (fun e => ev e * dv e) (fun e => 2 * ev e * dv e))
+        by (intros; ring).
+      rewrite (sumR_scal_ext (/ s) (fun e => ev e * dv e) (fun e => ev e / s * dv e))
+        by (intros; unfold Rdiv; ring).
+      field. lra.
+  Qed.
+
+  Lemma norm2_grad_sum node es :
+    ev (norm2_grad node es (map g es) c0) = sumR (map (fun e => ev e / ev node * dv e) es).
+  Proof. rewrite norm2_grad_ev, ev_c0, map_map, dotR_map_same. ring. Qed.
+
+  Lemma P_frob es : Forall P es -> 0 < sumsq es -> P (Frob es).
+  Proof.
+    intros H Hpos. unfold P. eapply is_derive_eq; [exact (norm2_derive es H Hpos)|].
+    simpl g. rewrite norm2_grad_sum. reflexivity.
+  Qed.
+
+  Lemma P_l2n k es : kind_wf k es = true -> Forall P es -> 0 < sumsq es -> P (L2n k es).
+  Proof.
+    intros Hk H Hpos. unfold P. eapply is_derive_eq; [exact (norm2_derive es H Hpos)|].
+    destruct k as [i|]; simpl g.
+    - destruct (kind_wf_KVar i es Hk) as [xs [Hes Hnd]].
+      assert (Hn : ev (L2n (KVar i) es) = sqrt (sumsq es)) by reflexivity.
+      set (s := sqrt (sumsq es)) in *. clearbody s. subst es.
+      rewrite vec_names_map_Var, map_map.
+      rewrite (sumR_ext_in _ (fun y => rho y / s * ind v y)).
+      + rewrite (sum_indicator (fun y => rho y / s) v xs Hnd).
+        destruct (mem_name v xs); [|apply eq_sym, ev_c0].
+        rewrite s_div_ev, Hn. reflexivity.
+      + intros y _. rewrite ev_grad_var. reflexivity.
+    - rewrite norm2_grad_sum. reflexivity.
+  Qed.
+
+  (* --- L1Norm --- *)
+  Lemma norm1_derive es : Forall P es -> Forall (fun e => ev e <> 0) es ->
+    is_derive (fun t => sumR (map (fun e => Rabs (F e t)) es)) x0
+              (sumR (map (fun e => ev e / Rabs (ev e) * dv e) es)).
+  Proof.
+    intros H Hne. apply (sumR_derive es (fun e t => Rabs (F e t))).
+    eapply Forall_impl; [|exact (Forall_and _ _ _ H Hne)]. intros e [He Hn].
+    eapply is_derive_eq.
+    - apply (is_derive_Rabs (F e)); [exact He|]. rewrite F_x0. exact Hn.
+    - rewrite F_x0, (sign_div_abs _ Hn). reflexivity.
+  Qed.
+
+  Lemma P_l1n k es : kind_wf k es = true -> Forall P es ->
+    Forall (fun e => ev e <> 0) es -> P (L1n k es).
+  Proof.
+    intros Hk H Hne. unfold P. eapply is_derive_eq; [exact (norm1_derive es H Hne)|].
+    destruct k as [i|]; simpl g.
+    - destruct (kind_wf_KVar i es Hk) as [xs [Hes Hnd]]. subst es.
+      rewrite vec_names_map_Var, map_map.
+      rewrite (sumR_ext_in _ (fun y => rho y / Rabs (rho y) * ind v y)).
+      + rewrite (sum_indicator (fun y => rho y / Rabs (rho y)) v xs Hnd).
+        destruct (mem_name v xs); [|apply eq_sym, ev_c0].
+        rewrite s_div_ev. reflexivity.
+      + intros y _. rewrite ev_grad_var. reflexivity.
+    - rewrite norm1_grad_ev, ev_c0, map_map, dotR_map_same. ring.
+  Qed.
+
+  (* --- DotProduct --- *)
+  Fixpoint dot2R (ls rs : list expr) : R :=
+    match ls, rs with
+    | l :: ls', r :: rs' => (ev l * dv r + ev r * dv l) + dot2R ls' rs'
+    | _, _ => 0
+    end.
+
+  Lemma dot_derive ls rs : Forall P ls -> Forall P rs ->
+    is_derive (F (Dot KExpr ls KExpr rs)) x0 (dot2R ls rs).
+  Proof.
+    intros Hl. revert rs. induction Hl as [|l ls Hl Hls IH]; intros rs Hr.
+    - apply is_derive_const_R.
+    - destruct Hr as [|r rs Hr Hrs]; [apply is_derive_const_R|].
+      change (F (Dot KExpr (l :: ls) KExpr (r :: rs)))
+        with (fun t => F l t * F r t + F (Dot KExpr ls KExpr rs) t).
+      simpl dot2R. apply is_derive_plus_R; [|apply IH, Hrs].
+      eapply is_derive_eq; [apply is_derive_mult_R; [exact Hl|exact Hr]|].
+      rewrite !F_x0. ring.
+  Qed.
+
+  Lemma dot_gen_grad_ev ls rs acc :
+    ev (dot_gen_grad ls rs (map g ls) (map g rs) acc) = ev acc + dot2R ls rs.
+  Proof.
+    revert rs acc. induction ls as [|l ls IH]; intros [|r rs] acc; simpl; try ring.
+    rewrite IH, !s_add_ev, !s_mul_ev. ring.
+  Qed.
+
+  Lemma dot_vv_grad_ev xs ys acc :
+    ev (dot_vv_grad v (map Var xs) (map Var ys) acc) =
+    ev acc + dot2R (map Var xs) (map Var ys).
+  Proof.
+    revert ys acc. induction xs as [|x xs IH]; intros [|y ys] acc; simpl map;
+      try (simpl; ring).
+    simpl dot_vv_grad. rewrite IH. simpl dot2R. rewrite !ev_grad_var. unfold ind.
+    destruct (String.eqb x v), (String.eqb y v); rewrite ?s_add_ev; simpl; ring.
+  Qed.
+
+  Lemma dot2R_same xs :
+    dot2R (map Var xs) (map Var xs) = sumR (map (fun y => 2 * rho y * ind v y) xs).
+  Proof.
+    induction xs as [|x xs IH]; simpl map; [reflexivity|].
+    simpl dot2R. rewrite IH, ev_grad_var. simpl. ring.
+  Qed.
+
+  Lemma P_dot kl ls kr rs :
+    kind_wf kl ls = true -> kind_wf kr rs = true -> same_vec kl ls kr rs = true ->
+    Forall P ls -> Forall P rs -> P (Dot kl ls kr rs).
+  Proof.
+    intros Hkl Hkr Hsame Hl Hr. unfold P.
+    eapply is_derive_eq; [exact (dot_derive ls rs Hl Hr)|].
+    assert (Hgen : dot2R ls rs = ev (dot_gen_grad ls rs (map g ls) (map g rs) c0))
+      by (rewrite dot_gen_grad_ev, ev_c0; ring).
+    destruct kl as [i|]; [|exact Hgen]. destruct kr as [j|]; [|exact Hgen].
+    destruct (kind_wf_KVar i ls Hkl) as [xs [Hls Hxs]].
+    destruct (kind_wf_KVar j rs Hkr) as [ys [Hrs Hys]]. subst ls rs.
+    simpl g. simpl in Hsame. destruct (N.eqb i j).
+    - rewrite !vec_names_map_Var in Hsame. apply list_eqb_string_eq in Hsame. subst ys.
+      rewrite vec_names_map_Var, dot2R_same.
+      rewrite (sumR_ext_in _ (fun y => 2 * rho y * ind v y)) by reflexivity.
+      rewrite (sum_indicator (fun y => 2 * rho y) v xs Hxs).
+      destruct (mem_name v xs); [|apply eq_sym, ev_c0].
+      rewrite s_mul_ev, ev_c2. reflexivity.
+    - rewrite dot_vv_grad_ev, ev_c0. ring.
+  Qed.
+
+  (* --- VectorPowerSum --- *)
+  Lemma Qeq_bool_minus1 p z :
+    Qeq_bool p (inject_Z (z + 1)) = true -> Qeq_bool (p - 1) (inject_Z z) = true.
+  Proof.
+    intros H. apply Qeq_bool_iff in H. apply Qeq_bool_iff. rewrite H.
+    rewrite inject_Z_plus. ring.
+  Qed.
+
+  Lemma vpow_deriv_ev p : ev (vpow_deriv p v) = Q2R p * powQ x0 (p - 1).
+  Proof.
+    unfold vpow_deriv. destruct (Qeq_bool p 1) eqn:E1; [|destruct (Qeq_bool p 2) eqn:E2].
+    - rewrite ev_c1, (Qeq_bool_Q2R _ _ E1), Q2R_1'.
+      rewrite powQ_exp0; [ring|]. apply (Qeq_bool_minus1 p 0), E1.
+    - change (ev (Bin Mul c2 (Var v))) with (ev c2 * x0).
+      rewrite ev_c2, (Qeq_bool_Q2R _ _ E2), Q2R_2'.
+      rewrite powQ_exp1; [ring|]. apply (Qeq_bool_minus1 p 1), E2.
+    - reflexivity.
+  Qed.
+
+  Lemma P_vpowsum i xs p :
+    NoDup xs -> Forall (fun y => powQ_reg (rho y) p) xs -> P (VPowSum i xs p).
+  Proof.
+    intros Hnd Hreg. unfold P.
+    eapply is_derive_eq.
+    - apply (sumR_derive xs (fun y t => powQ (upd rho v t y) p)
+                         (fun y => Q2R p * powQ (rho y) (p - 1) * ind v y)).
+      eapply Forall_impl; [|exact Hreg]. intros y Hy.
+      eapply is_derive_eq.
+      + apply (is_derive_comp_R (fun t => powQ t p) (fun t => upd rho v t y));
+          [|apply upd_derive].
+        apply powQ_derive. rewrite upd_same_pt. exact Hy.
+      + rewrite upd_same_pt. ring.
+    - rewrite (sum_indicator (fun y => Q2R p * powQ (rho y) (p - 1)) v xs Hnd).
+      simpl g. destruct (mem_name v xs); [|apply eq_sym, ev_c0].
+      symmetry. apply vpow_deriv_ev.
+  Qed.
+
+  (* --- VectorUnarySum --- *)
+  Lemma vunary_deriv_ev o :
+    vun_ok o = true ->
+    ev (match vunary_deriv o v with Some d => d | None => c0 end) = uop_d o x0.
+  Proof.
+    destruct o; try discriminate; intros _; simpl;
+      rewrite ?Q2R_1', ?Q2R_2', ?Q2R_m1'; try reflexivity; try ring.
+    - rewrite (powQ_exp2 (cos x0) 2) by reflexivity. reflexivity.
+    - rewrite (powQ_exp2 (tanh x0) 2) by reflexivity. reflexivity.
+  Qed.
+
+  Lemma P_vunsum i xs o :
+    vun_ok o = true -> NoDup xs -> Forall (fun y => uop_reg o (rho y)) xs ->
+    P (VUnSum i xs o).
+  Proof.
+    intros Ho Hnd Hreg. unfold P.
+    eapply is_derive_eq.
+    - apply (sumR_derive xs (fun y t => uopR o (upd rho v t y))
+                         (fun y => uop_d o (rho y) * ind v y)).
+      eapply Forall_impl; [|exact Hreg]. intros y Hy.
+      eapply is_derive_eq.
+      + apply (is_derive_comp_R (uopR o) (fun t => upd rho v t y)); [|apply upd_derive].
+        apply uop_derive. rewrite upd_same_pt. exact Hy.
+      + rewrite upd_same_pt. ring.
+    - rewrite (sum_indicator (fun y => uop_d o (rho y)) v xs Hnd).
+      simpl g. destruct (mem_name v xs); [|apply eq_sym, ev_c0].
+      symmetry. apply vunary_deriv_ev, Ho.
+  Qed.
+(*VEC*)
 End Correct.
 
 Theorem grad_correct_scalar : forall ln2c ln10c e v rho penv,
